@@ -56,6 +56,13 @@ CLAIMED["C20"] = (
     "DESIGN.md §3 C20",
 )
 
+CLAIMED["C17"] = (
+    "symbolic abstract interpretation of TrafficLightCycle.cycle_init_timesteps and get_state_at_time_step over a term domain (linear forms in t, offset, total duration T; floored a mod b; table of window starts; mask value<table; first-true index; element selection) with transfer functions for the numpy idioms in use (cumsum, insert/append/concatenate, %, np.mod, fmod, argmax, searchsorted); the computed term is compared with the specification term",
+    "Decides that the implementation is an instance of the table-lookup scheme whose symbolic value equals the specification: table = [b, b+d1, .., b+T] from the durations of the cycle's own elements in order; reported state = state of elements[i] with i = (first table entry strictly greater than b + ((t - offset) mod T)) - 1, i.e. the element whose window [start, start+duration) contains the reduced time step, for every t including t < offset (floored modulo) and every later period; TrafficLight returns its cycle's answer for the same t. A recognised term that differs (period, origin, strictness, the -1, table start, element list) is a violation naming the difference; a construct outside the vocabulary makes the check refuse (exit 2) rather than guess. Memo freshness of the table is C11.",
+    "Trusts numpy semantics of the modelled functions, positive integer durations and at least one element (as the property assumes), and that np.argmax on a boolean mask returns the first True (one exists because the reduced value is below the last table entry).",
+    "DESIGN.md §3 C17 (revised: was planned as not applicable)",
+)
+
 CLAIMED["C09"] = (
     "ast pairing analysis of Scenario: id paths reserved per add_objects branch vs released per removal form (single/list), containment guards by syntax-directed dominance, ownership (who may drop / touch _id_set), atomic reservation, counter monotonicity",
     "Per-operation invariant argument that covers every history: each add branch reserves the id paths of the object it stores in one all-or-nothing step before storing; each removal form releases exactly those paths and only under a containment guard; only designated functions drop objects or touch the id pool; replacing the network releases the old ids; the counter only grows and generate_object_id folds in max(_id_set). Decided for all 9 object kinds and 5 removal functions.",
@@ -138,9 +145,7 @@ CLAIMED["C01"] = (
     "DESIGN.md §2 E-TRIANGLE, §3 C01",
 )
 
-NOT_APPLICABLE = {
-    "C17": "modular arithmetic over runtime integers (%, cumsum, argmax): no sound static argument in reach; the only structural part (memo freshness) is decided under C11, and 'TrafficLight delegates to its cycle' is sufficient but not necessary, so a rule on it would fire on behaviour-preserving edits",
-}
+NOT_APPLICABLE = {}
 
 ALL = ["C%02d" % i for i in range(1, 21)]
 
